@@ -18,7 +18,8 @@ CFG_1D = dict(
     ops1=("pos", "mul2", "adv"),
     set_idx=("all", "s1", "i0", "advr3", "bool"),
     iops=("iadd", "imul", "ipow2"),
-    outs=(("add", None), ("multiply", 0)),
+    outs=(("add", None), ("multiply", 0), ("multiply", "F")),
+    outs_const=True,
     max_live=6,
     set_all_tensor=True,
     no_target=("y",),
